@@ -346,7 +346,7 @@ pub(super) fn action_json(a: &Action) -> serde_json::Value {
     let b = |addr: &Address| BASE64_STANDARD.encode(addr.bytes());
     match a {
         Action::Transfer(t) => json!({"kind": "transfer", "to": b(&t.to), "amount": t.amount.to_string(), "asset": t.asset.to_ibc_prefixed().to_string(), "fee_asset": t.fee_asset.to_ibc_prefixed().to_string()}),
-        Action::RollupDataSubmission(r) => json!({"kind": "rollup_data_submission", "rollup": r.rollup_id.to_string(), "len": r.data.len(), "data": vlog::hex(&r.data[..r.data.len().min(24)]), "fee_asset": r.fee_asset.to_ibc_prefixed().to_string()}),
+        Action::RollupDataSubmission(r) => json!({"kind": "rollup_data_submission", "rollup": r.rollup_id.to_string(), "len": r.data.len(), "sha": vlog::hex(&sha2::Sha256::digest(&r.data)[..10]), "data": vlog::hex(&r.data[..r.data.len().min(24)]), "fee_asset": r.fee_asset.to_ibc_prefixed().to_string()}),
         Action::InitBridgeAccount(i) => json!({"kind": "init_bridge_account", "rollup": i.rollup_id.to_string(), "asset": i.asset.to_ibc_prefixed().to_string(), "fee_asset": i.fee_asset.to_ibc_prefixed().to_string(),
             "sudo": i.sudo_address.as_ref().map(b), "withdrawer": i.withdrawer_address.as_ref().map(b)}),
         Action::BridgeLock(l) => json!({"kind": "bridge_lock", "to": b(&l.to), "amount": l.amount.to_string(), "asset": l.asset.to_ibc_prefixed().to_string(), "asset_display_len": l.asset.display_len(),
@@ -494,7 +494,10 @@ async fn gen_action<S: StateRead>(
             };
             let mut data = vec![0u8; len];
             rng.fill_bytes(&mut data);
-            let rollup = RollupId::new([rng.gen_range(1..=4u8); 32]);
+            if u.profile == "rollups" && rng.gen_bool(0.2) {
+                data = vec![0x42; 3]; // duplicate payloads across transactions and rollups
+            }
+            let rollup = RollupId::new([rng.gen_range(1..=if u.profile == "rollups" { 8u8 } else { 4u8 }); 32]);
             let bad_fee = hostile && rng.gen_bool(0.2);
             let fee_asset = pick_fee_asset(u, rng, state, bad_fee).await;
             Some((from, Action::RollupDataSubmission(RollupDataSubmission { rollup_id: rollup, data: data.into(), fee_asset }), "rollup_data".into()))
@@ -762,6 +765,8 @@ fn pick_kind(rng: &mut ChaChaRng, profile: &str) -> &'static str {
             ("ledger", "transfer" | "fee_change" | "fee_asset_change") => 2,
             ("ibc", "ics20_withdrawal") => 12,
             ("proposals", "rollup_data") => 4,
+            ("rollups", "rollup_data") => 5,
+            ("rollups", "bridge_lock" | "init_bridge") => 3,
             ("proposals", "fee_change" | "validator_update" | "sudo_change") => 3,
             ("ibc", "init_bridge" | "bridge_lock") => 2,
             _ => 1,
@@ -958,7 +963,33 @@ pub(super) async fn build_trial_tx<S: StateRead>(
                                         rollup_block_number: 3, rollup_withdrawal_event_id: ev.to_string(),
                                     });
                                     actions.push(mk(&ev));
-                                    mk(&ev)
+                                    // the second use of the same event id: another unlock, or an ICS-20 withdrawal from the bridge
+                                    let basset = match state.get_bridge_account_ibc_asset(&u.accts[b].addr).await {
+                                        Ok(x) => u.assets.iter().find(|d| d.to_ibc_prefixed() == x).cloned(),
+                                        Err(_) => None,
+                                    };
+                                    match (rng.gen_bool(0.6), basset) {
+                                        (true, Some(denom)) => Action::Ics20Withdrawal(Ics20Withdrawal {
+                                            amount: 1,
+                                            denom,
+                                            destination_chain_address: "counterparty1receiver".into(),
+                                            return_address: u.accts[b].address(),
+                                            timeout_height: ibc_types::core::client::Height::new(2, 1_000_000).unwrap(),
+                                            timeout_time: 4_000_000_000_000_000_000,
+                                            source_channel: ibc_types::core::channel::ChannelId::new(0),
+                                            fee_asset: fee_asset.clone(),
+                                            memo: serde_json::to_string(&astria_core::protocol::memos::v1::Ics20WithdrawalFromRollup {
+                                                rollup_block_number: 3,
+                                                rollup_withdrawal_event_id: ev.clone(),
+                                                rollup_return_address: "0xrollupreturn".into(),
+                                                memo: "m".into(),
+                                            })
+                                            .unwrap(),
+                                            bridge_address: Some(u.accts[b].address()),
+                                            use_compat_address: false,
+                                        }),
+                                        _ => mk(&ev),
+                                    }
                                 }
                                 None => Action::Transfer(Transfer { to: u.accts[1].address(), amount: bal.saturating_add(1), asset, fee_asset }),
                             }
